@@ -610,11 +610,14 @@ def _encode_one_float_array(values, digits, reference):
     precision = ref_value * 10.**(-digits)
     unique_values_needed = span / precision + 1
     bytes_needed = np.log(unique_values_needed) / np.log(256)
-    nbytes = -int(-bytes_needed // 1)               # nbytes is rounded up
 
-    # In nbytes > 6, better to use double precision plus fpzip
-    if nbytes > 6:
+    # In nbytes > 6, better to use double precision plus fpzip. This includes
+    # the case where the ratio of span to precision overflows, which happens
+    # for values of widely different magnitudes.
+    if not bytes_needed <= 6:
         return _fpzip_encoded('float64', values)
+
+    nbytes = -int(-bytes_needed // 1)               # nbytes is rounded up
 
     # Sometimes the test reveals that single precision fpzip is best. This is
     # so when the absolute precision requested is no finer than the spacing of
